@@ -131,6 +131,9 @@ def check_case(case):
                 if {kk: int(v) for kk, v in popW.items() if kk} != pool or any(b.weight != 1 for b in population):
                     out["violations"].append({"key": "C03:random_transfer:population",
                                               "what": f"sampling population {popW} is not the winner's transferable ballots as unit ballots {pool} on {desc}", "input": desc})
+                if len(population) != n_units:
+                    out["violations"].append({"key": "C03:random_transfer:population-size",
+                                              "what": f"the draw is made from {len(population)} entries but the winner has {n_units} unit ballots (every ballot of the winner, and nothing else, takes part in the draw) on {desc}", "input": desc})
                 if k > len(population) or k < 0:
                     cls = "exhausted-winner-ballots" if len(population) < n_units else "other"
                     out["violations"].append({"key": f"C03:random_transfer:sample-larger-than-population[{cls}]",
